@@ -81,7 +81,7 @@ func (H) Describe(sc any) string {
 
 func genBuild(r *simrt.Rand, u int) []BOp {
 	var out []BOp
-	for i := 0; i < r.Intn(14); i++ {
+	for i := 0; i < r.Intn(14+u); i++ {
 		out = append(out, BOp{K: []string{"add", "add", "add", "remove", "has", "has", "len"}[r.Intn(7)], V: r.Intn(u)})
 	}
 	return out
@@ -93,6 +93,9 @@ var callKinds = []string{"union", "intersect", "setdiff", "symdiff", "union", "i
 func (H) Generate(r *simrt.Rand, tier string) any {
 	impls := []string{"maps", "sync2"}
 	s := &Scenario{Impl: [2]string{impls[r.Intn(2)], impls[r.Intn(2)]}, U: 1 + r.Intn(7)}
+	if r.Intn(6) == 0 {
+		s.U = 8 + r.Intn(24)
+	}
 	s.BuildA, s.BuildB = genBuild(r, s.U), genBuild(r, s.U)
 	n := 1 + r.Intn(10)
 	if tier == "thorough" && r.Intn(4) == 0 {
